@@ -51,6 +51,18 @@ def handle : Handler
   | "k_redc_1", [.vec t, .vec m] => some [.vec (redc_1 t m)]
   | "k_karaadd", [.vec r, .vec t] => some [.vec (kara false r t)]
   | "k_karasub", [.vec r, .vec t] => some [.vec (kara true r t)]
+  | "k_mod_1_1", [.vec x, .num d] => some [.vec (mod_1_k 1 x d.toNat)]
+  | "k_mod_1_2", [.vec x, .num d] => some [.vec (mod_1_k 2 x d.toNat)]
+  | "k_mod_1_3", [.vec x, .num d] => some [.vec (mod_1_k 3 x d.toNat)]
+  | "k_divrem_hensel_qr_1_1", [.num _, .vec x, .num d] => let r := hensel x d.toNat 0; some [magTok x.length r.1, natTok r.2]
+  | "k_divrem_hensel_qr_1_2", [.num _, .vec x, .num d] => let r := hensel x d.toNat 0; some [magTok x.length r.1, natTok r.2]
+  | "k_divrem_hensel_r_1", [.vec x, .num d] => some [natTok (hensel x d.toNat 0).2]
+  | "k_rsh_divrem_hensel_qr_1_1", [.num _, .vec x, .num d, .num s, .num c] => let r := hensel x d.toNat c.toNat; some [magTok x.length (r.1 / 2 ^ s.toNat), natTok r.2]
+  | "k_rsh_divrem_hensel_qr_1_2", [.num _, .vec x, .num d, .num s, .num c] => let r := hensel x d.toNat c.toNat; some [magTok x.length (r.1 / 2 ^ s.toNat), natTok r.2]
+  | "k_lshift3", [.num _, .vec u] => some (pr (lshiftk u 3))
+  | "k_lshift4", [.num _, .vec u] => some (pr (lshiftk u 4))
+  | "k_lshift5", [.num _, .vec u] => some (pr (lshiftk u 5))
+  | "k_lshift6", [.num _, .vec u] => some (pr (lshiftk u 6))
   -- value level
   | "c14_mul", [.vec u, .vec v] => let p := val u * val v; let n := u.length + v.length
       some [magTok n p, natTok (p / B ^ (n - 1))]
